@@ -48,8 +48,8 @@ TEXT = {
             "Only inputs up to the per-obligation size; allocation size, stack depth and wall-clock are not modelled.", TECH_KANI),
     "C17": ("§5 C17", "Solver-decided: reg2bin(feature) is in the closed-form bin set of every intersecting region for ALL interval pairs at (14,5) and other geometries; the real reg2bins equals the closed form at small concrete geometries; parent chain; chunk-list soundness (shared with C04); index leaf writer->reader inverses.",
             "Depth-5 reg2bins is tied to the closed form only at small depth (loop body independent of depth: argument); multi-bin index files end-to-end outside.", TECH_KANI),
-    "C18": ("§9 C18", "Narrow, solver-decided: the GTF attribute-value quote/backslash escaping layer (writer output == spec form for every 2-byte value; reader parse_field + escape_decode invert it for every 2-byte value) and the BED record reader's bounds bookkeeping (read_field inductive step from an arbitrary line-buffer state; a reused Record<3> with ARBITRARY previous content keeps nothing of the previous line).",
-            "GFF3 percent layer, BED writer and numeric columns, record-level round trips, attribute ordering outside.", TECH_KANI),
+    "C18": ("§9 C18", "Narrow, solver-decided: the GTF attribute-value quote/backslash escaping layer (writer output == spec form for every 2-byte value; reader parse_field + escape_decode invert it for every 2-byte value) and the BED record reader's bounds bookkeeping (read_field inductive step from an arbitrary line-buffer state; a reused Record<3> with ARBITRARY previous content keeps nothing of the previous line) and the GFF3 attribute-value percent layer for EVERY single byte (writer output reserved-free, reader parse_value returns the same string, never an array).",
+            "GFF3 values of 2+ bytes and other GFF3 columns, BED writer and numeric columns, record-level round trips, attribute ordering outside.", TECH_KANI),
     "C19": ("§9 C19", "Narrow, solver-decided CRAM query/index kernels: the real Query state machine yields a pending record iff it is on the queried reference and intersects (symbolic ids/positions), ReferenceSequenceContext::update one-step fold and raw-triple conversion.",
             "Container walking, slice decoding and CRAI text I/O outside.", TECH_KANI),
     "C20": ("§5 C20", "Narrow, solver-decided magic-number kernels of format autodetection on a symbolic window, incl. no-confusion for SAM writer output.",
